@@ -71,9 +71,15 @@ def _patch_filters():
 
         @functools.wraps(orig)
         def wrapped(self, simulated_obs, _orig=orig):
-            if _TAP['on']:
+            # (only the call the posterior makes: a composite calls its
+            # parts through the same public method)
+            if _TAP['on'] and not _TAP.get('depth'):
                 _TAP['args'].append(np.array(simulated_obs, dtype=float))
-            return _orig(self, simulated_obs)
+            _TAP['depth'] = _TAP.get('depth', 0) + 1
+            try:
+                return _orig(self, simulated_obs)
+            finally:
+                _TAP['depth'] -= 1
         cls.compute_log_likelihood = wrapped
 
 
@@ -125,6 +131,13 @@ class FPCase(object):
         self.times = rng.permutation(
             np.array([0.2, 0.7, 1.1, 1.9, 2.6, 3.3]))[:self.n_times]
         self.order = np.argsort(self.times)
+        # the measurements may be spread over several filters of the same
+        # kind, one per block of (input-order) time points, composed into one
+        # (also a single block: a plain wrapper)
+        self.blocks = None
+        if rng.random() < 0.25:
+            self.blocks = [self.n_times] if rng.random() < 0.3 \
+                else c12._split(rng, self.n_times)
         n_ids = int(rng.integers(2, 6))
         self.obs = rng.uniform(1.0, 4.0,
                                size=(n_ids, self.n_out, self.n_times))
@@ -182,7 +195,14 @@ class FPCase(object):
             model.enable_sensitivities(True)
         elif self.pre_sens is not None:
             model.enable_sensitivities(True, list(self.pre_sens))
-        flt = c12.make_filter(self.fname, self.obs.copy(), self.k)
+        if self.blocks is None:
+            flt = c12.make_filter(self.fname, self.obs.copy(), self.k)
+        else:
+            edges = np.concatenate([[0], np.cumsum(self.blocks)])
+            flt = chi.ComposedPopulationFilter([
+                c12.make_filter(self.fname, self.obs[:, :, a:b].copy(),
+                                self.k)
+                for a, b in zip(edges[:-1], edges[1:])])
         pm = GP.build_chi(self.leaves, self.n_s, nest=self.nest)
         if self.reduced_top:
             full_names = pm.get_parameter_names()
@@ -257,6 +277,17 @@ class FPCase(object):
         s, psi, y = self.sim(x)
         top = x[:self.n_top]
         prior = np.sum(D.norm_logpdf(top, self.prior_mu, self.prior_sd))
+        if self.blocks is not None:
+            # y is in sorted time order: y[:, :, j] belongs to input time
+            # order[j]
+            yo = np.empty(y.shape, dtype=complex)
+            yo[:, :, self.order] = y
+            edges = np.concatenate([[0], np.cumsum(self.blocks)])
+            f = 0.0
+            for a, b in zip(edges[:-1], edges[1:]):
+                f = f + c12.ref_value(self.fname, self.obs[:, :, a:b],
+                                      yo[:, :, a:b], self.k)
+            return prior + s - np.sum(eps ** 2) / 2 + f
         obs_sorted = self.obs[:, :, self.order]
         return prior + s - np.sum(eps ** 2) / 2 \
             + c12.ref_value(self.fname, obs_sorted, y, self.k)
@@ -273,7 +304,8 @@ class FPCase(object):
 
     def signature(self):
         return (self.fname[:9], '+'.join(GP.leaf_code(l) for l in self.leaves),
-                self.sigma_free, self.log_scale, min(self.n_s, 4), self.n_out)
+                self.sigma_free, self.log_scale, min(self.n_s, 4), self.n_out,
+                None if self.blocks is None else len(self.blocks))
 
     def nontrivial(self):
         return any(l.kind in 'PH' or l.cov or not l.centered
@@ -287,11 +319,13 @@ class FPCase(object):
                 'n_outputs': self.n_out, 'times': self.times,
                 'sigma_free': self.sigma_free, 'log_scale': self.log_scale,
                 'observations_shape': self.obs.shape,
+                'composed_filter_blocks': self.blocks,
                 'covariates': None if self.cov is None else self.cov_arg}
 
     def features(self):
         kinds = [l.kind for l in self.leaves]
         return {'filter': self.fname, 'mode': self.mode,
+                'composed_filter': self.blocks is not None,
                 'leaves': [GP.leaf_code(l) for l in self.leaves],
                 'n_leaves': len(self.leaves),
                 'all_pooled': all(k == 'P' for k in kinds),
